@@ -54,9 +54,9 @@ def generate(seed, tier="quick", faults=True, **kw):
     out_rel = "out/result.cfg" if single else r.choice(["out", "out", "out/nested/deeper", "res dir"])
     dump = None
     if o["ip"] and r.random() < 0.6:
-        dump = r.choice(["map", "maps/ip.map"]) if entry != "cli" or True else "map"
+        dump = r.choice(["map", "maps/ip.map"] + ([posixpath.join(out_rel, "ip-map.txt")] if not single else []))
         if "/" in dump:
-            xdisk["dirs"].append(posixpath.dirname(dump))
+            xdisk["dirs"].append(posixpath.dirname(dump))     # the map file's directory always exists beforehand
     # pre-existing output tree
     if r.random() < 0.35:
         xdisk["dirs"].append(posixpath.dirname(out_rel) if single else out_rel)
